@@ -51,8 +51,18 @@ def gen_history(r: random.Random) -> list[str]:
     for _ in range(r.randint(5, 12)):
         x = r.random()
         if in_txn:
-            if x < 0.5:
+            if x < 0.3:
                 h.append(f"INSERT INTO T1 (ID, S) VALUES ({r.randint(100, 999)}, 'tx')")
+            elif x < 0.36:
+                h.append(f"COMMENT ON TABLE T{r.randint(1, ntab)} IS 'in txn {r.randint(0, 99)}'")
+            elif x < 0.42:
+                h.append(f"ALTER TABLE T1 ADD COLUMN X{len(h)} VARCHAR({r.choice([4, 40])})")
+            elif x < 0.48:
+                # the same name again with another declaration, all inside the transaction
+                t = f"T{r.randint(2, ntab)}" if ntab > 1 else "TX"
+                h += [f"DROP TABLE IF EXISTS {t}", f"CREATE TABLE {t} (ID INT, NAME VARCHAR({r.choice([6, 60])})) COMMENT = 'recreated in txn'"]
+            elif x < 0.52:
+                h.append(f"UPDATE T1 SET S = 'tu{r.randint(0, 9)}' WHERE ID <= {r.randint(1, 3)}")
             elif x < 0.75:
                 h.append("COMMIT")
                 in_txn = False
@@ -89,7 +99,7 @@ def gen_history(r: random.Random) -> list[str]:
             h.append("CREATE TABLE S2.Y (ID INT) COMMENT = 'y'")
         else:
             h.append(f"CREATE OR REPLACE TABLE T{r.randint(1, ntab)}B AS SELECT * FROM T1")
-    if in_txn:
+    if in_txn and r.random() < 0.6:  # else: the process ends with the transaction still open
         h.append(r.choice(["COMMIT", "ROLLBACK"]))
     return h
 
@@ -98,7 +108,7 @@ def gen_cases(tier: str, seed: int):
     r = random.Random(f"{seed}:C18")
     n = 14 if tier == "quick" else 150
     for i in range(n):
-        yield {"kind": "history", "history": gen_history(r), "stride": 3 if tier == "quick" else 1, "offset": i % 3}
+        yield {"kind": "history", "history": gen_history(r), "stride": 3 if tier == "quick" else 1, "offset": i % 3, "with_conn": i % 2 == 1}
     for i in range(4 if tier == "quick" else 24):
         yield {"kind": "in_memory", "seed": r.randrange(1 << 30)}
 
@@ -126,7 +136,7 @@ def _observe_committed(fs: Any) -> dict:
     }
 
 
-def _child_run(case_dir: str, db_dir: str, history: list[str], mode: str, kill_at: int | None, phase: str | None, dry: bool) -> None:
+def _child_run(case_dir: str, db_dir: str, history: list[str], mode: str, kill_at: int | None, phase: str | None, dry: bool, with_conn: bool = False) -> None:
     """Runs in a forked child.  mode: dry | kill | clean | body_exc | sys_exit | os_exit | sigterm"""
     import snowflake.connector
 
@@ -147,8 +157,13 @@ def _child_run(case_dir: str, db_dir: str, history: list[str], mode: str, kill_a
     tap.HOOK = hook
     states = []
     percall = []
-    with fakesnow.patch(db_path=db_dir):
+    import contextlib
+
+    with contextlib.ExitStack() as stack:
+        stack.enter_context(fakesnow.patch(db_path=db_dir))
         conn = snowflake.connector.connect(database="db1", schema="s1")
+        if with_conn:  # the connection as a context manager: leaving the block does not commit anything by itself
+            stack.enter_context(conn)
         cur = conn.cursor()
         fs_root = tap.SHIM.roots[-1]
 
@@ -292,7 +307,7 @@ def run_case(case: dict, env: core.Env) -> None:
         # ---- dry run: expected committed state after every statement + engine-call numbering
         d = os.path.join(base, "dry")
         os.makedirs(os.path.join(d, "db"))
-        how, code = _fork(_child_run, d, os.path.join(d, "db"), history, "dry", None, None, True)
+        how, code = _fork(_child_run, d, os.path.join(d, "db"), history, "dry", None, None, True, case.get("with_conn", False))
         if (how, code) != ("exit", 0):
             err = ""
             try:
@@ -355,7 +370,7 @@ def run_case(case: dict, env: core.Env) -> None:
         for mode in ("clean", "body_exc", "sys_exit", "os_exit", "sigterm"):
             cd = os.path.join(base, mode)
             os.makedirs(os.path.join(cd, "db"))
-            how, code = _fork(_child_run, cd, os.path.join(cd, "db"), history, mode, None, None, False)
+            how, code = _fork(_child_run, cd, os.path.join(cd, "db"), history, mode, None, None, False, case.get("with_conn", False))
             env.count("exit_modes_run")
             env.count("fault_runs")
             if how == "timeout":
@@ -370,7 +385,7 @@ def run_case(case: dict, env: core.Env) -> None:
             for phase in ("before", "after"):
                 cd = os.path.join(base, f"k{j}{phase}")
                 os.makedirs(os.path.join(cd, "db"))
-                how, code = _fork(_child_run, cd, os.path.join(cd, "db"), history, "kill", j, phase, False)
+                how, code = _fork(_child_run, cd, os.path.join(cd, "db"), history, "kill", j, phase, False, case.get("with_conn", False))
                 env.count("fault_runs")
                 if how == "timeout":
                     raise core.Inconclusive("kill-run watchdog")
